@@ -769,6 +769,28 @@ pub(crate) fn check_if_response_is_matched(
         (0, total_count - reorg_count)
     };
 
+    if total_count - reorg_count > last_n_blocks {
+        // The last n headers should start at or before the first block which reaches the
+        // difficulty boundary.
+        let difficulty_boundary: U256 = prev_request.difficulty_boundary().unpack();
+        let first_last_n_header = &headers[total_count - last_n_count];
+        let previous_total_diff_before_last_n: U256 = first_last_n_header
+            .parent_chain_root()
+            .total_difficulty()
+            .unpack();
+        if first_last_n_header.header().number() > start_number
+            && previous_total_diff_before_last_n >= difficulty_boundary
+        {
+            let errmsg = format!(
+                "the last n headers should start at the difficulty boundary {:#x} \
+                but the first one is block#{}",
+                difficulty_boundary,
+                first_last_n_header.header().number()
+            );
+            return Err(StatusCode::MalformedProtocolMessage.with_context(errmsg));
+        }
+    }
+
     if sampled_count == 0 {
         if last_n_count > 0 {
             // If no sampled headers, the last_n_blocks should be all new blocks.
